@@ -62,6 +62,8 @@ func init() {
 		Gen: genPipePaste, Exec: execPipe})
 	h.Register(&h.Engine{Name: "pipemouse", Rule: "the real screen under the schedule controller: a press report, EnableMouse / DisableMouse calls with other flags, then drag reports, the release and a buttonless motion, in random chunkings; distinct = distinct line; non-trivial = the tail check ran",
 		Gen: genPipeMouse, Exec: execPipe})
+	h.Register(&h.Engine{Name: "pipeslow", Rule: "the real screen free running in real time: one read of 12-21 characters ending inside a multi-byte character while the application does not poll for 90-160 ms (event queue full, scanInput blocked beyond the escape timeout), then the application catches up and the rest of the character arrives within 20 ms; distinct = distinct line; non-trivial = the tail check was judged (timing respected)",
+		Gen: genPipeSlow, Exec: execPipe})
 	h.Register(&h.Engine{Name: "pipeesc", Rule: "the real screen free running in real time: an incomplete escape sequence read in 2-3 pieces 5-20 ms apart, silence, then complete keys; distinct = distinct line; non-trivial = the escape-timeout check ran",
 		Gen: genPipeEsc, Exec: execPipe})
 }
@@ -619,6 +621,32 @@ func genPipeOne(r *h.Rand, kind int) string {
 		}
 		ops += " ; more ; checktail ; fini"
 		return hdr(steps, exp, expat, fmt.Sprintf("feed2=%s exp2=%s cons=%s stop=-1 pend=%d post=0 draw=%d", ppJoin(steps2), ppJoin(exp2), ppCons(r), r.Intn(2), r.Intn(2))) + ops
+	case 13: // C11 / C05, real time: one read fills the event queue while the application is not polling for longer than the
+		// escape timeout and ends inside a multi-byte character; the application catches up; the rest of the character arrives
+		k := r.Range(0, 3)
+		n := k + 10 + r.Range(2, 8)
+		var chunk []byte
+		var exp []string
+		var expat []int
+		for i := 0; i < n; i++ {
+			c := byte(0x21 + (i*7+int(seed))%94)
+			chunk = append(chunk, c)
+			exp = append(exp, fmt.Sprintf("K256.%d.0", c))
+			expat = append(expat, 0)
+		}
+		ch := h.Pick(r, []rune{0xe9, 0x20ac, 0x4e16, 0x1f600, 0x3b1, 0x10348, 0x7ff, 0x800})
+		enc := []byte(string(ch))
+		cut := r.Range(1, len(enc)-1)
+		chunk = append(chunk, enc[:cut]...)
+		ops := fmt.Sprintf(" ; free ; sleep %d ; unpause ; sleep 15", r.Range(90, 160))
+		rest := enc[cut:]
+		if len(rest) > 1 && r.Bool() { // the rest in two reads
+			ops += fmt.Sprintf(" ; inj %s ; sleep 3 ; inj %s", h.Hex(rest[:1]), h.Hex(append(append([]byte{}, rest[1:]...), 'A')))
+		} else {
+			ops += fmt.Sprintf(" ; inj %s", h.Hex(append(append([]byte{}, rest...), 'A')))
+		}
+		ops += fmt.Sprintf(" ; tailwait K256.%d.0,K256.65.0 ; fini", ch)
+		return hdr([]string{"c:" + h.Hex(chunk)}, exp, expat, fmt.Sprintf("cons=poll stop=%d pend=0 post=0 draw=0", k)) + ops
 	case 10: // real time: an incomplete sequence read in 2..3 pieces a few ms apart, then silence; then a complete key
 		pre := h.Pick(r, [][]string{{"1b", "5b"}, {"1b", "4f"}, {"1b", "1b"}, {"1b", "5b", "31"}, {"1b", "5b31", "3b"}, {"1b5b", "31"}, {"1b", "5b3c"}, {"1b", "5b", "32"},
 			{"1b", "5b32", "30"}, {"1b", "5d"}, {"1b", "50"}, {"1b5b31", "3b35"}, {"1b", "1b", "5b"}, {"1b", "5b", "3c33"}, {"61", "1b", "5b"}, {"1b", "5b33"}})
@@ -706,6 +734,14 @@ func genPipePaste(g *h.Gen) {
 func genPipeMouse(g *h.Gen) {
 	for i := g.N(30, 400); i > 0; i-- {
 		g.Emit("%s", genPipeOne(g.R, 12))
+	}
+	ppLines = append(ppLines, g.Lines...)
+}
+
+// engine pipeslow (C11): text that meets back-pressure in the middle of a character, in real time
+func genPipeSlow(g *h.Gen) {
+	for i := g.N(16, 300); i > 0; i-- {
+		g.Emit("%s", genPipeOne(g.R, 13))
 	}
 	ppLines = append(ppLines, g.Lines...)
 }
